@@ -178,6 +178,8 @@ type CutReader struct {
 	// DataWithErr: the failing call (or the call that reaches Cut) delivers its bytes TOGETHER with the error
 	// (n > 0, err != nil), as io.Reader allows and real transports do.
 	DataWithErr bool
+	// Transient: only the FailAtCall-th call fails (a timeout, an interrupted call); later calls go on delivering the data.
+	Transient bool
 }
 
 func (c *CutReader) Read(p []byte) (int, error) {
@@ -186,7 +188,7 @@ func (c *CutReader) Read(p []byte) (int, error) {
 	if e == nil {
 		e = io.EOF
 	}
-	failNow := c.FailAtCall > 0 && c.Reads >= c.FailAtCall
+	failNow := c.FailAtCall > 0 && (c.Reads == c.FailAtCall || (c.Reads > c.FailAtCall && !c.Transient))
 	if failNow && !(c.DataWithErr && c.Reads == c.FailAtCall) {
 		return 0, e
 	}
